@@ -2,7 +2,7 @@
 //! `calculate_scopes` is compiled from the example's own source file by path, so this binary is
 //! isolated from the rest of the harness (a change to the example can only break C16).
 #[allow(dead_code)]
-#[path = "/repo/examples/multi-thread/scope.rs"]
+#[path = "../../../espada-src/examples/multi-thread/scope.rs"]
 mod scope;
 
 use espada_verif::evalmodel::*;
